@@ -360,6 +360,11 @@ def rules(chk, db):
     # the reply (a Status<T> / Result / Optional return value) is sent through Prepare(Size(reply)): in every state of the value
     # Size() must size exactly what the writer emits, or the reply is refused / written from the wrong member
     encrules.size_rules(chk, db)
+    # "a request whose arguments fail to decode yields that decode error": the argument tuple's count and every fixed-size
+    # argument's length are validated on the full 64-bit value, in the documented unit
+    chk.rule('NR', 'no narrowing of a decoded count / length in any decoder', minimum=10)
+    encrules.narrowing(chk, db, 'NR', {'ReadPayload', 'Read'})
+    encrules.read_rules(chk, db, want=('GRD',))
     witness.run(chk, 'c14_rpc.cpp', 'W', 'compile-time witnesses for interface declarations and bindings', minimum=6)
 
 
